@@ -119,6 +119,17 @@ func PayloadGen(d *m.Design, meth *m.Method) *rapid.Generator[value.V] {
 				loc.NonEmptyArray = true
 			}
 			present := f.Required || f.Attr.Default != nil
+			if !present && MinLenCollection(d, f.Attr) && kf.Open("C04-absent-optional-collection-minlength") {
+				present = true // steered away from the open finding
+			}
+			if !present && h != nil && h.Body != nil && h.Body.Mode == "attr" && h.Body.Attr == f.Name {
+				if d.Underlying(f.Attr) == m.Object && kf.Open("C02-body-attr-optional-unset-client-panic") {
+					present = true
+				}
+				if d.Underlying(f.Attr).IsPrimitive() && kf.Open("C02-body-attr-optional-primitive-unset-arrives-zero") {
+					present = true
+				}
+			}
 			if !present {
 				present = rapid.IntRange(0, 9).Draw(t, "present:"+f.Name) < 6
 			}
@@ -129,6 +140,16 @@ func PayloadGen(d *m.Design, meth *m.Method) *rapid.Generator[value.V] {
 		}
 		return out
 	})
+}
+
+// MinLenCollection reports whether the attribute is an array or map with MinLength >= 1.
+func MinLenCollection(d *m.Design, a *m.Attr) bool {
+	k := d.Underlying(a)
+	if k != m.Array && k != m.Map {
+		return false
+	}
+	v := MergedValidation(d, a)
+	return v.MinLen != nil && *v.MinLen >= 1
 }
 
 // ResultGen generates a valid result for a method together with the
@@ -167,6 +188,13 @@ func ResultGen(d *m.Design, meth *m.Method) *rapid.Generator[value.V] {
 				loc.NonEmptyArray = true
 			}
 			present := f.Required || f.Attr.Default != nil
+			if !present && meth.HTTP != nil && kf.Open("C03-response-body-attr-optional-unset-server-panic") {
+				for _, r := range meth.HTTP.Responses {
+					if r.Body != nil && r.Body.Mode == "attr" && r.Body.Attr == f.Name && d.Underlying(f.Attr) == m.Object {
+						present = true
+					}
+				}
+			}
 			if !present {
 				present = rapid.IntRange(0, 9).Draw(t, "rpresent:"+f.Name) < 6
 			}
